@@ -16,7 +16,9 @@ def judge(ln):
     if op == 'consts': return ('skip', 'leaf')
     elems, i = parse_chain(ln.args, 0)
     rest = ln.args[i:]
-    if not all_finite(ln.res) and op != 'tr.hands':
+    if not all_finite(ln.res) and op not in ('tr.hands', 'info.tr'):
+        return ('fail', 'non-finite', 'non-finite output')
+    if op == 'info.tr' and all_finite(rest[:6] + rest[7:13]) and not all_finite(ln.res[:6] + ln.res[7:19] + ln.res[20:]):
         return ('fail', 'non-finite', 'non-finite output')
     M, Minv, A, Ainv = chain_reference(elems)
     if op == 'tr.chain':
@@ -100,5 +102,32 @@ def judge(ln):
             # displaced by at most ~ the origin's error bound (first order): |dt*wd| <= 64*gamma*|mo|
             if any(abs(dt * wd[k]) > 64 * tolo for k in range(3)):
                 return ('fail', 'ray-origin-too-far', 'origin advanced by %s' % [float(dt * wd[k]) for k in range(3)])
+        return ('ok', '')
+    if op == 'info.tr':
+        if not all_finite(rest[:6] + rest[7:13]): return ('skip', 'malformed-operand')
+        p = V(rest, 0); n = V(rest, 3); side = rest[6]; du = V(rest, 7); dv = V(rest, 10)
+        MT = [[Minv[j][i] for j in range(4)] for i in range(4)]
+        MiT = [[M[j][i] for j in range(4)] for i in range(4)]
+        AT = [[Ainv[j][i] for j in range(4)] for i in range(4)]
+        AiT = [[A[j][i] for j in range(4)] for i in range(4)]
+        for (off, MM, AA, NT, NA, name) in ((0, M, A, MT, AT, 'transform'), (13, Minv, Ainv, MiT, AiT, 'inv_transform')):
+            rp = V(ln.res, off); rn = V(ln.res, off + 3); rside = ln.res[off + 6]; rdu = V(ln.res, off + 7); rdv = V(ln.res, off + 10)
+            if rside != side: return ('fail', 'info-side-changed', 'side changed by %s' % name)
+            wp = mat_pt(MM, p); mp = apply_abs(AA, p)
+            wn = mat_vec(NT, n); mn_ = apply_abs(NA, n, False)
+            wdu = mat_vec(MM, du); mdu = apply_abs(AA, du, False)
+            wdv = mat_vec(MM, dv); mdv = apply_abs(AA, dv, False)
+            for k in range(3):
+                for (g, w, m_, what, key) in ((rp, wp, mp, 'point', 'info-point'), (rn, wn, mn_, 'normal (inverse transpose)', 'info-normal-not-inverse-transpose'),
+                                           (rdu, wdu, mdu, 'dpdu', 'info-tangent'), (rdv, wdv, mdv, 'dpdv', 'info-tangent')):
+                    e = close(g[k], w[k], m_[k], '%s %s[%d]' % (name, what, k))
+                    if e: return ('fail', key, e)
+            # the carried normal stays perpendicular to the carried tangents (they were perpendicular before)
+            for (tv, nm) in ((rdu, 'dpdu'), (rdv, 'dpdv')):
+                d = vdot(rn, tv)
+                import math
+                scale = Fraction(math.sqrt(float(vnorm2(rn)) * float(vnorm2(tv))))
+                if abs(d) > rel_tol() * 64 * max(scale, Fraction(1, 10**12)) and abs(vdot(n, du)) + abs(vdot(n, dv)) < Fraction(1, 10**9):
+                    return ('fail', 'info-normal-not-perpendicular', '%s: normal . %s = %.3g' % (name, nm, float(d)))
         return ('ok', '')
     return ('skip', 'leaf')
